@@ -1,5 +1,5 @@
 (* C09 - Decoding is independent of transport chunking and never accepts a cut stream. *)
-From PydapV Require Import Base Readers ReadersProofs Dap4 Dap4Proofs.
+From PydapV Require Import Base Readers ReadersProofs Dap4 Dap4Proofs Xdr XdrProofs XdrTrunc.
 
 (* Whatever the chunking of the byte stream (and whatever is already buffered), any sequence of reads
    through StreamReader returns exactly what the strict reader returns on the concatenated bytes,
@@ -37,6 +37,29 @@ Theorem C09_dap4_truncation_safe : forall raw vars k res,
   unpack_dap4 (firstn k raw) vars = None \/ unpack_dap4 (firstn k raw) vars = Some res.
 Proof. exact dap4_truncation_safe. Qed.
 Print Assumptions C09_dap4_truncation_safe.
+
+(* The same for DAP2: whatever the declaration (arrays, strings, structures, grids, sequences nested to any
+   depth, with the fixed-width fast path or the per-column path) and whatever stream the decoder accepts, the
+   decoder on ANY prefix of that stream either fails or returns the very same value. *)
+Theorem C09_dap2_truncation_safe : forall d s v r k,
+  unpack d s = Some (v, r) ->
+  unpack d (firstn k s) = None \/ exists r', unpack d (firstn k s) = Some (v, r').
+Proof. exact dap2_truncation_safe. Qed.
+Print Assumptions C09_dap2_truncation_safe.
+
+(* ... and every strict prefix of the reference encoding of a well-formed value is rejected: a cut inside
+   the data can never pass for a (shorter) complete answer. *)
+Theorem C09_dap2_strict_prefix_rejected : forall d v b k,
+  wf d v -> xdr d v = Some b -> (k < List.length b)%nat -> unpack d (firstn k b) = None.
+Proof. exact dap2_strict_prefix_rejected. Qed.
+Print Assumptions C09_dap2_strict_prefix_rejected.
+
+Example C09_ex2 :
+  let d := DStruct [DBase TByte (Some 3%nat); DSeq [DBase TInt16 None; DBase TString None]] in
+  let v := VStruct [VBase [SInt 1; SInt 2; SInt 255]; VSeq [[VBase [SInt (-2)]; VBase [SStr (s2l "abcde")]]]] in
+  exists b, xdr d v = Some b /\ unpack d b = Some (v, []) /\
+            forallb (fun k => match unpack d (firstn k b) with None => true | Some _ => false end) (seq 0 (List.length b)) = true.
+Proof. cbn zeta. eexists. split; [vm_compute; reflexivity|]. split; vm_compute; reflexivity. Qed.
 
 Example C09_ex :
   let p := s2l "Data:" ++ ["010"%char] in
